@@ -28,6 +28,25 @@ SLOTF = "src/slot.rs"
 B30 = 1 << 30
 
 
+def slot_table(crate):
+    """the interning table of slot.rs, found by its shape (not by names): a struct of that file with a u32 counter, a
+    Vec<String> of names and a HashMap<String, u32> of codes: {'adt', 'counter', 'vec', 'map'}"""
+    key = "slot_table"
+    if key in crate._cache:
+        return crate._cache[key]
+    for path, a in crate.adts.items():
+        if not path.startswith("slot::") or len(a["variants"]) != 1:
+            continue
+        fs = a["variants"][0]["fields"]
+        cnt = [f["name"] for f in fs if f["ty"] == "u32"]
+        vec = [f["name"] for f in fs if f["ty"].startswith("std::vec::Vec<std::string::String")]
+        mp = [f["name"] for f in fs if "HashMap<std::string::String, u32" in f["ty"]]
+        if len(cnt) == 1 and len(vec) == 1 and len(mp) == 1:
+            crate._cache[key] = {"adt": path, "counter": cnt[0], "vec": vec[0], "map": mp[0]}
+            return crate._cache[key]
+    raise mir.AnchorMissing("the slot interning table of slot.rs (struct with a u32 counter, a Vec<String> and a HashMap<String, u32>)")
+
+
 def body(crate, bid):
     b = crate.bodies.get(bid)
     if b is None:
@@ -129,7 +148,7 @@ def slot_view(crate, b, parse_bounds):
 
 
 def run_closure(crate, cl, parse_bounds, F):
-    ex = Exec(cl, make_model(crate, parse_bounds, [0]), mem_init={"fresh_idx": Aff(F, 1, 0)})
+    ex = Exec(cl, make_model(crate, parse_bounds, [0]), mem_init={slot_table(crate)["counter"]: Aff(F, 1, 0)})
     return ex.run()
 
 
@@ -155,8 +174,9 @@ def o1(ctx):
                               "Slot(..) is constructed outside slot.rs in %s" % C.short(root.id), where_of(b, bi, s.get("line")))
     ctx.floor("Slot(..) construction sites", n, 4)
     # writers of the table
-    for fld in ("fresh_idx", "named_vec", "named_map"):
-        w = C.writers(crate, "slot::SlotTable", fld)
+    tab = slot_table(crate)
+    for fld in (tab["counter"], tab["vec"], tab["map"]):
+        w = C.writers(crate, tab["adt"], fld)
         ok = all(w_.startswith("slot::") for w_ in w)
         ctx.check(ok and len(w) >= 1, "table-writers:" + fld, "SlotTable.%s is written only in slot.rs (%s)" % (fld, sorted(C.short(x) for x in w)),
                   "SlotTable.%s is written by %s" % (fld, sorted(w)))
@@ -168,11 +188,11 @@ def o2(ctx):
     parse_bounds = verify_parse_contract(ctx, crate)
     F = Base("F", 1, (1 << 32) - 9, 1)      # hypothesis: counter = 1 mod 4 (O3 shows every store preserves it), no wrap (assumption)
     # initial value
-    init = [s for b in crate.bodies.values() for bi, si, s in b.statements() if s["k"] == "assign" and s["rv"]["k"] == "agg" and s["rv"].get("adt") == "slot::SlotTable"]
+    init = [s for b in crate.bodies.values() for bi, si, s in b.statements() if s["k"] == "assign" and s["rv"]["k"] == "agg" and s["rv"].get("adt") == slot_table(crate)["adt"]]
     ctx.floor("SlotTable initialisers", len(init), 1)
     for s in init:
         rv = s["rv"]
-        v = rv["ops"][rv["fields"].index("fresh_idx")]
+        v = rv["ops"][rv["fields"].index(slot_table(crate)["counter"])]
         ctx.check(v.get("int") is not None and int(v["int"]) % 4 == 1, "O3:init", "fresh_idx starts at %s = 1 mod 4" % v.get("int"), "fresh_idx is initialised to %s, not 1 mod 4" % v.get("text"))
     # --- numeric
     num = slot_view(crate, body(crate, "slot::Slot::numeric"), parse_bounds)
@@ -190,7 +210,7 @@ def o2(ctx):
     # --- fresh
     fr = slot_view(crate, closure_of(crate, "slot::Slot::fresh"), parse_bounds)
     for p in run_closure(crate, fr, parse_bounds, F):
-        stores = [e for e in p.events if e[0] == "store" and e[1] == "fresh_idx"]
+        stores = [e for e in p.events if e[0] == "store" and e[1] == slot_table(crate)["counter"]]
         ctx.check(len(stores) == 1, "O4:fresh-stores", "fresh() stores the counter exactly once", "fresh() stores the counter %d times on a path" % len(stores), where_of(fr))
         ret = None
         for ev in p.events:
@@ -224,7 +244,7 @@ def o2(ctx):
         hit = any(c == ("map-hit",) for c in p.conds)
         miss = any(c == ("map-miss",) for c in p.conds)
         aggs = [e for e in p.events if e[0] == "agg" and e[1] == "slot::Slot::Slot"]
-        stores = [e for e in p.events if e[0] == "store" and e[1] == "fresh_idx"]
+        stores = [e for e in p.events if e[0] == "store" and e[1] == slot_table(crate)["counter"]]
         for ev in p.events:
             check_overflow(ctx, ev, "named", ncl)
         if len(aggs) != 1:
@@ -386,14 +406,14 @@ def o7(ctx):
                         if c.callee and c.callee.name == "new" and "Arguments" in (c.callee.impl_self or ""):
                             tr = bb_.role_of_operand(c.args[0])
                             arg = role_str(bb_.role_of_operand(c.args[1]), 14)
-                            if expr in arg or (res == 2 and "named_vec" in arg and bb_ is not d):
+                            if expr in arg or (res == 2 and slot_table(crate)["vec"] in arg and bb_ is not d):
                                 found = (decode_fmt("const " + tr[1] if tr[0] == "const" else None), arg if expr in arg else arg + " " + expr)
         if found is None:
             ctx.bad("display-arm:%d" % res, "no formatting call found in the residue-%d arm of Display for Slot" % res, where_of(d))
             continue
         tpl, arg = found
         ctx.check(tpl == pieces, "display-literals:%d" % res, "residue %d prints template %s (%s)" % (res, tpl, why), "residue %d prints template %s, expected %s (%s)" % (res, tpl, pieces, why), where_of(d))
-        ctx.check(expr in arg and (res != 2 or "named_vec" in arg), "display-decoding:%d" % res, "residue %d decodes with %s" % (res, expr), "residue %d decodes with %s, expected %s" % (res, arg, expr), where_of(d))
+        ctx.check(expr in arg and (res != 2 or slot_table(crate)["vec"] in arg), "display-decoding:%d" % res, "residue %d decodes with %s" % (res, expr), "residue %d decodes with %s, expected %s" % (res, arg, expr), where_of(d))
     # the tokenizer hands `$name` without the `$` to Slot::named
     tk = [b for b in crate.free_fn("tokenize") if (b.file or "").endswith("parse.rs")]
     if tk:
